@@ -295,6 +295,8 @@ fn print_case(sc: &Scenario, rec: &RunRecord, pubkey: &[u8]) {
         let total: usize = rec.wire_out.iter().map(|c| c.1.len()).sum();
         if ss.len() != 16 && total > n0 { flags |= 16; }
     }
+    // bit 5: the handler kept reading after the end of the client's stream (more than 1000 reads answered "end of stream")
+    if rec.eof_spin { flags |= 32; }
     let biggest_in = rec.raw_in.iter().map(|x| x.1.len()).max().unwrap_or(0);
     let mut segs: Vec<String> = rec.raw_in.iter().map(|(t, b)| format!("({}, Some {})", t, g_hex(b))).collect();
     if let Some(t) = rec.eof_at { segs.push(format!("({}, None)", t)); }
@@ -672,8 +674,8 @@ fn main() {
                     let probe = build2("MAL", &mut r, &p0, Some(vec![3u8; 16]), "probe".into());
                     let frame_pos: Vec<usize> = probe.acts.iter().enumerate().filter(|(_, a)| matches!(a, Act::Frame { .. })).map(|(i, _)| i).collect();
                     for (k, pos) in frame_pos.iter().enumerate() {
-                        for m in 0..14 {
-                            if scale < 3 && r.below(2) == 0 { continue; }
+                        for m in 0..15 {
+                            if scale < 3 && m != 14 && r.below(2) == 0 { continue; }
                             let mut p = base_params(&mut r, intent);
                             if intent == Intent::Transfer { let c = rnd_sa(&mut r); p.auth_payload = Some(valid_auth_cookie(&mut r, &c, &[3u8; 16], 5, 21_600, false)); }
                             let mut sc = build2("MAL", &mut r, &p, Some(vec![3u8; 16]), format!("{:?} step {} mutation {}", intent, k, m));
@@ -693,7 +695,10 @@ fn main() {
                                     let mut b2 = r.pick(&hostile).clone(); b2.extend_from_slice(&body); repl.push(Act::Frame { id, body: b2 }); }
                                 12 => { // invalid UTF-8 / bad ordinal / random body
                                     let mut b2 = body.clone(); if !b2.is_empty() { let i = r.below(b2.len() as u64) as usize; b2[i] = *r.pick(&[0xc0u8, 0xff, 0x80, 0xed, 0x7f]); } else { b2 = r.bytes(5); } repl.push(Act::Frame { id, body: b2 }); }
-                                _ => { let n = r.below(40) as usize; repl.push(Act::Raw(r.bytes(n))); }
+                                13 => { let n = r.below(40) as usize; repl.push(Act::Raw(r.bytes(n))); }
+                                _ => { // the stream ends inside a length prefix: 1-4 bytes that all announce another one
+                                    let n = 1 + r.below(4) as usize; let v: Vec<u8> = (0..n).map(|_| *r.pick(&[0x80u8, 0x90, 0xff, 0x8a])).collect();
+                                    repl.push(Act::Raw(v)); repl.push(Act::Sleep(7)); repl.push(Act::Eof); }
                             }
                             sc.acts.splice(*pos..*pos + 1, repl);
                             if m == 4 || m == 13 { sc.max_len = *r.pick(&[64, 300, 10_000]); }
